@@ -9,6 +9,7 @@
 (*   [op |-> "union", xs |-> <<e, ...>>]      items listed side by side    *)
 (*   [op |-> "inter" | "diff" | "symdiff", l |-> e, r |-> e]   && -- ~~    *)
 (*   [op |-> "neg", x |-> e]                  [^ ... ]                     *)
+(*   [op |-> "grp", x |-> e]                  [ ... ]  nested, no effect   *)
 (* An ATOM is a truth assignment to the base symbols (which base items a   *)
 (* character belongs to); Member(e, atom) is the membership the property   *)
 (* prescribes.  Phase "emit": TLC enumerates the expression shapes.  The   *)
@@ -30,6 +31,7 @@ Inter(x, y) == [op |-> "inter", l |-> x, r |-> y]
 Diff(x, y) == [op |-> "diff", l |-> x, r |-> y]
 SymDiff(x, y) == [op |-> "symdiff", l |-> x, r |-> y]
 Neg(x) == [op |-> "neg", x |-> x]
+Grp(x) == [op |-> "grp", x |-> x]
 
 RECURSIVE Member(_, _)
 Member(e, v) ==
@@ -39,15 +41,21 @@ Member(e, v) ==
     [] e.op = "diff"    -> Member(e.l, v) /\ ~Member(e.r, v)
     [] e.op = "symdiff" -> Member(e.l, v) # Member(e.r, v)
     [] e.op = "neg"     -> ~Member(e.x, v)
+    [] e.op = "grp"     -> Member(e.x, v)
 
 Bin(j, x, y) == CASE j = 1 -> Union2(x, y) [] j = 2 -> Inter(x, y) [] j = 3 -> Diff(x, y) [] j = 4 -> SymDiff(x, y)
 GrowC(L) ==
   LET n == Len(L) IN
-  L \o [k \in 1..n |-> Neg(L[k])]
+  L \o [k \in 1..n |-> Neg(L[k])] \o [k \in 1..n |-> Grp(L[k])]
     \o [k \in 1..(n * n * 4) |-> Bin(((k - 1) % 4) + 1, L[(((k - 1) \div 4) % n) + 1], L[((k - 1) \div (4 * n)) + 1])]
 D0 == [k \in 1..NB |-> Base(k)]
-D1 == TLCEval(GrowC(D0))                 \* 5 + 5 + 100 = 110
-D2 == TLCEval(GrowC(D1))                 \* 110 + 110 + 48400
+D1 == TLCEval(GrowC(D0))                 \* 5 + 10 + 100 = 115
+D2 == TLCEval(GrowC(D1))                 \* 115 + 230 + 52900
+\* every chain of two or three unary operators (negation, redundant nesting) over a base symbol
+Un(j, x) == IF j = 0 THEN Neg(x) ELSE Grp(x)
+Chains == [k \in 1..(NB * 4) |-> Un(k % 2, Un((k \div 2) % 2, Base(((k - 1) \div 4) + 1)))]
+          \o [k \in 1..(NB * 8) |-> Un(k % 2, Un((k \div 2) % 2, Un((k \div 4) % 2, Base(((k - 1) \div 8) + 1))))]
+          \o [k \in 1..(NB * 4) |-> Un(k % 2, Inter(Un((k \div 2) % 2, Base(((k - 1) \div 4) + 1)), Base((k % NB) + 1)))]
 Triples == << Union3(Base(1), Base(2), Base(3)), Union3(Base(4), Neg(Base(2)), Base(5)),
               Inter(Union3(Base(1), Base(2), Base(3)), Neg(Union2(Base(2), Base(4)))),
               Neg(Neg(Neg(Base(1)))), Diff(Diff(Base(1), Base(2)), Base(3)), Diff(Base(1), Diff(Base(2), Base(3))),
@@ -57,7 +65,7 @@ Phase == IOEnv.VERIF_PHASE
 Stride == atoi(IOEnv.VERIF_STRIDE)
 Offset == atoi(IOEnv.VERIF_OFFSET)
 \* all shapes of depth <= 1, the hand-picked deeper ones, and every Stride-th shape of depth 2
-Shapes == TLCEval(D1 \o Triples
+Shapes == TLCEval(D1 \o Triples \o Chains
                   \o [k \in 1..((Len(D2) - Len(D1)) \div Stride) |-> D2[Len(D1) + ((((k - 1) * Stride) + Offset) % (Len(D2) - Len(D1))) + 1]])
 ASSUME Phase = "emit" => ndJsonSerialize(IOEnv.VERIF_OUT, [k \in DOMAIN Shapes |-> [id |-> k, e |-> Shapes[k]]])
 
